@@ -562,7 +562,7 @@ class ScrollBar(WidgetDecoration[WrappedWidget]):
         # Thumb may only touch top/bottom if the first/last row is visible
         top_weight = float(pos) / max(1, posmax)  # pylint: disable=possibly-used-before-assignment
         top_height = int((maxrow - thumb_height) * top_weight)
-        if top_height == 0 and top_weight > 0:
+        if top_height == 0 and top_weight > 0 and maxrow > thumb_height:
             top_height = 1
 
         # Bottom part is remaining space
